@@ -204,7 +204,12 @@ def _nested_path_through(node: ast.AST, target: ast.AST) -> list[str] | None:
     return None
 
 
-def _first_evaluated_call(st: ast.stmt, name: str) -> tuple[ast.AST, str, int | None, ast.Call] | None:
+def _comp_bound(e: ast.AST) -> set[str]:
+    return {x.id for c in ast.walk(e) if isinstance(c, (ast.ListComp, ast.SetComp, ast.DictComp, ast.GeneratorExp)) for g in c.generators
+            for x in ast.walk(g.target) if isinstance(x, ast.Name)}
+
+
+def _first_evaluated_call(st: ast.stmt, name: str, nparams: int = 0) -> tuple[ast.AST, str, int | None, ast.Call] | None:
     """The call `name()` when it is the first non-trivial thing statement `st` evaluates (only plain names and
     constants are read before it): (parent, field, index, call)."""
     if not isinstance(st, (ast.Assign, ast.AugAssign, ast.AnnAssign, ast.Expr, ast.Return)) or getattr(st, 'value', None) is None:
@@ -217,7 +222,8 @@ def _first_evaluated_call(st: ast.stmt, name: str) -> tuple[ast.AST, str, int | 
     fld, idx, cur = 'value', None, st.value
     while True:
         if isinstance(cur, ast.Call):
-            if isinstance(cur.func, ast.Name) and cur.func.id == name and not cur.args and not cur.keywords:
+            if isinstance(cur.func, ast.Name) and cur.func.id == name and len(cur.args) == nparams and not cur.keywords \
+                    and all(isinstance(a_, (ast.Name, ast.Constant)) for a_ in cur.args):
                 return par, fld, idx, cur
             if isinstance(cur.func, ast.Name) and cur.args and not isinstance(cur.args[0], ast.Starred):
                 par, fld, idx, cur = cur, 'args', 0, cur.args[0]
@@ -260,7 +266,8 @@ def _expand_closures(fn: ast.AST, skip_known: tuple[str, set[str]] | None = None
                 calls_ = [n for n in ast.walk(fn) if isinstance(n, ast.Call) and isinstance(n.func, ast.Name) and n.func.id == st.name and not n.keywords
                           and len(n.args) == len(params_) and all(_simple(x) for x in n.args)]
                 bound_ = {n.id for n in ast.walk(body_[0].value) if isinstance(n, ast.Name) and isinstance(n.ctx, ast.Store)}
-                if uses_ and len(uses_) == len(calls_) and not bound_:
+                argnames_ = {x.id for c_ in calls_ for a_ in c_.args for x in ast.walk(a_) if isinstance(x, ast.Name)}
+                if uses_ and len(uses_) == len(calls_) and not (bound_ & argnames_) and not (bound_ - _comp_bound(body_[0].value)):
                     expr_ = body_[0].value
 
                     class _Rp(ast.NodeTransformer):
@@ -278,9 +285,10 @@ def _expand_closures(fn: ast.AST, skip_known: tuple[str, set[str]] | None = None
                     _Rp().visit(fn)
                     ast.fix_missing_locations(fn)
                     done = True
+                    continue
+        if a.posonlyargs or a.kwonlyargs or a.vararg or a.kwarg or a.defaults:
             continue
-        if a.args or a.posonlyargs or a.kwonlyargs or a.vararg or a.kwarg:
-            continue
+        cparams = [x.arg for x in a.args]
         body = [copy.deepcopy(x) for x in st.body]
         if body and isinstance(body[0], ast.Expr) and isinstance(body[0].value, ast.Constant):
             body = body[1:]
@@ -337,7 +345,7 @@ def _expand_closures(fn: ast.AST, skip_known: tuple[str, set[str]] | None = None
                     sum(1 for n in ast.walk(getattr(s_, 'test', None) or getattr(s_, 'iter', None) or ast.Pass()) if isinstance(n, ast.Name) and n.id == st.name)
                 if not n_here:
                     continue
-                hit = _first_evaluated_call(s_, st.name) if n_here == 1 else None
+                hit = _first_evaluated_call(s_, st.name, len(cparams)) if n_here == 1 else None
                 if hit is None:
                     ok = False
                 else:
@@ -348,8 +356,14 @@ def _expand_closures(fn: ast.AST, skip_known: tuple[str, set[str]] | None = None
             counter += 1
             ren = {nm: f'{nm}__{st.name.lstrip("_")}{counter}' for nm in inner_locals if nm in outer_names}
 
+            pmap = dict(zip(cparams, call.args))
+            if any(isinstance(n, ast.Name) and n.id in pmap and isinstance(n.ctx, ast.Store) for x in body for n in ast.walk(x)):
+                continue       # the closure re-binds a parameter
+
             class _Rn(ast.NodeTransformer):
                 def visit_Name(self, n: ast.Name) -> ast.AST:  # noqa: N802
+                    if n.id in pmap and isinstance(n.ctx, ast.Load):
+                        return copy.deepcopy(pmap[n.id])
                     if n.id in ren:
                         return ast.copy_location(ast.Name(id=ren[n.id], ctx=n.ctx), n)
                     return n
